@@ -8,5 +8,7 @@ trap 'git -C /repo checkout -- .' EXIT
 mkdir -p /tmp/seedchk/ev
 for c in "$@"; do
   out=$(VERIF_EVIDENCE_DIR=/tmp/seedchk/ev VERIF_SEED=${VERIF_SEED:-1} /verif/bin/vcheck $c ${SEED_TIER:-quick} 2>&1); rc=$?
+  # exit 1 counts as "detected" only with a VIOLATION line (a crashed driver also exits 1)
+  if [ $rc -eq 1 ] && ! echo "$out" | grep -q "^VIOLATION property="; then rc=3; fi
   echo "== $c rc=$rc"; echo "$out" | grep -E "VIOLATION|SUMMARY|detail:|INCONCLUSIVE" | head -8
 done
